@@ -34,7 +34,7 @@ func newRueidis(t *testing.T, s *Server, opt rueidis.ClientOption) (rueidis.Clie
 func TestRueidisRESP3(t *testing.T) {
 	s, rec := newServer(t, Options{})
 	client, _ := newRueidis(t, s, rueidis.ClientOption{ClientName: "verif"})
-	ctx, cancel := context.WithTimeout(context.Background(), 10*time.Second)
+	ctx, cancel := context.WithTimeout(context.Background(), 60*time.Second)
 	defer cancel()
 
 	// The connection was set up the way _newPipe does it.
@@ -134,7 +134,7 @@ func TestRueidisRESP3(t *testing.T) {
 		if m.Channel != "news" || m.Message != "hello" {
 			t.Fatalf("message %+v", m)
 		}
-	case <-time.After(3 * time.Second):
+	case <-time.After(20 * time.Second):
 		t.Fatal("no pub/sub message received")
 	}
 	subCancel()
@@ -143,7 +143,7 @@ func TestRueidisRESP3(t *testing.T) {
 		if !errors.Is(err, context.Canceled) {
 			t.Fatalf("Receive returned %v", err)
 		}
-	case <-time.After(3 * time.Second):
+	case <-time.After(20 * time.Second):
 		t.Fatal("Receive did not return after cancel")
 	}
 	// (rueidis leaves the server side subscription in place when Receive is
@@ -224,7 +224,7 @@ func TestRueidisRESP3(t *testing.T) {
 func TestRueidisRESP2NoCache(t *testing.T) {
 	s, _ := newServer(t, Options{})
 	client, _ := newRueidis(t, s, rueidis.ClientOption{AlwaysRESP2: true, DisableCache: true})
-	ctx, cancel := context.WithTimeout(context.Background(), 10*time.Second)
+	ctx, cancel := context.WithTimeout(context.Background(), 60*time.Second)
 	defer cancel()
 	if err := client.Do(ctx, client.B().Set().Key("k").Value("v").Build()).Error(); err != nil {
 		t.Fatal(err)
@@ -270,7 +270,7 @@ func TestRueidisRESP2NoCache(t *testing.T) {
 		if m.Channel != "ch" || m.Message != "m2" {
 			t.Fatalf("message %+v", m)
 		}
-	case <-time.After(3 * time.Second):
+	case <-time.After(20 * time.Second):
 		t.Fatal("no RESP2 pub/sub message")
 	}
 	// Regular commands still work on the main connection meanwhile.
@@ -315,7 +315,7 @@ func TestRueidisAuthAndFaults(t *testing.T) {
 		t.Fatal(err)
 	}
 	defer client.Close()
-	ctx, cancel := context.WithTimeout(context.Background(), 10*time.Second)
+	ctx, cancel := context.WithTimeout(context.Background(), 60*time.Second)
 	defer cancel()
 	if err := client.Do(ctx, client.B().Set().Key("k").Value("v").Build()).Error(); err != nil {
 		t.Fatal(err)
